@@ -20,6 +20,7 @@ ASSUMPTIONS = ["templates: P2PKH 76 a9 14 h 88 ac; P2SH a9 14 h 87; witness OP_n
                "a checksum-valid Base58Check string with a known version byte and a payload that is not 20 bytes may be mapped (template "
                "over that payload) or refused", "references: base58_ref, bech32_ref, ecref"]
 OBLIGATIONS = {
+    "history_sequences": "operation sequences (non-initial process states) explored",
     "witness_v1plus_len_other": "a valid v1+ address with a program length other than 20/32", "unknown_b58_version": "a checksum-valid "
     "Base58Check string with an unknown version byte", "corrupted_still_valid": "a corrupted address that is itself another valid address",
     "pubkey_wrong_len_for_prefix": "a key buffer with valid prefix and the other length", "pubkey_off_curve": "an off-curve key buffer",
@@ -125,7 +126,24 @@ CASES = {"map": chk_map, "addr": chk_addr}
 
 
 def run_case(kind, case):
+    if kind == "seq":
+        from vf import seqexplore
+        return seqexplore.replay(run_case, case)
     return CASES[kind](case)
+
+
+def seq_ops(job):
+    seed = job["seed"]
+    h = filler(seed, "c08-sq", 20)
+    P = S.mul(7, S.G)
+    pk = bytes([2 + (P[1] & 1)]) + P[0].to_bytes(32, "big")
+    ops = [("addr", {"kind": "p2pkh", "net": "mainnet", "payload": h.hex()}), ("addr", {"kind": "p2sh", "net": "testnet", "payload": h.hex()}),
+           ("addr", {"kind": "wit", "net": "regtest", "v": 0, "payload": h.hex()}), ("addr", {"kind": "wit", "net": "mainnet", "v": 1, "payload": (h + h[:12]).hex()}),
+           ("addr", {"kind": "wit", "net": "mainnet", "v": 16, "payload": h[:2].hex()}),
+           ("map", {"data": pk.hex(), "what": "pubkey"}), ("map", {"data": (bytes([pk[0] ^ 1]) + pk[1:]).hex(), "what": "other parity"}),
+           ("map", {"data": B58.check_encode(b"\x30" + h).hex(), "what": "unknown version"}), ("map", {"data": b"xyz".hex(), "what": "junk"}),
+           ("map", {"data": B32.encode_segwit("bc", 0, h).upper().hex(), "what": "upper-case segwit"})]
+    return ops
 
 
 def patterns(seed, n):
@@ -142,10 +160,15 @@ def jobs(tier, seed):
         js.append({"name": f"keybufs/{sh}", "part": "keybufs", "shard": [sh, 4], "weight": 4})
     for t in (smallcurve.TABLE[:1] if tier == "quick" else smallcurve.TABLE[:3]):
         js.append({"name": f"small/p{t[0]}/points", "part": "small", "curve": list(t), "weight": 3})
+    from vf.runner import seq_jobs
+    js += seq_jobs(3, weight=4)
     return js
 
 
 def run_job(job):
+    if job["part"] == "seq":
+        from vf.runner import run_seq_job
+        return run_seq_job(job, seq_ops(job), run_case)
     acc = Acc(job)
     seed, part = job["seed"], job["part"]
     if part == "positive":
